@@ -16,6 +16,8 @@ import Refine.Model.Par
   gather (one World per line, one group per rank):
     gather_node np rbl N | K (global part x y z)*K | …       → `hang` | `<status> x y z …` (N records)
     gather_cell np per   | K (global part)*K C (g*per id)*C | … → `ok ncell rec…`
+    gather_file np rbl N | K (global part x y z)*K CT (g g g id)*CT CQ (g g g g id)*CQ | …
+                         → `hang` | `<status>` | `ok N xyz… ntri rec… ntet rec…`   (ref_gather_by_extension, .meshb)
 -/
 namespace Drivers.Par
 open Drivers.Proto Refine.Model.Comm Refine.Model.Par
@@ -199,11 +201,74 @@ def gatherCellOp (ws : List String) : String :=
     | _, _ => bad
   | _ => bad
 
+
+/-- `K (global part x y z)*K CT (g g g id)*CT CQ (g g g g id)*CQ` → the rank's nodes, triangles, tets -/
+def fileGroup (g : List String) : Option (RankView P3 × RankView Unit × RankView Unit) :=
+  match g with
+  | k :: rest =>
+    match k.toNat? with
+    | some k =>
+      if rest.length < 5 * k then none else
+      match parseNodes k (rest.take (5 * k)) with
+      | some nds =>
+        if !(distinctGlobals nds) then none else
+        let unds : List (Node Unit) := nds.map fun nd => ⟨nd.global, nd.part, ()⟩
+        match parseInts? (rest.drop (5 * k)) with
+        | some (ct :: r1) =>
+          if ct < 0 || r1.length < 4 * ct.toNat + 1 then none else
+          let triFlat := r1.take (4 * ct.toNat)
+          match r1.drop (4 * ct.toNat) with
+          | cq :: tetFlat =>
+            if cq < 0 || tetFlat.length != 5 * cq.toNat then none else
+            let tris := parseCells 3 ct.toNat triFlat
+            let tets := (parseCells 4 cq.toNat tetFlat).map fun c => { c with id := 0 }
+            let stored := fun (cl : GCell) => cl.nodes.all fun n => unds.any fun nd => nd.global == n
+            let nonneg := (chunks 4 ct.toNat triFlat).all (fun r => (r.take 3).all (· ≥ 0)) &&
+              (chunks 5 cq.toNat tetFlat).all (fun r => (r.take 4).all (· ≥ 0))
+            let idok := (chunks 4 ct.toNat triFlat ++ chunks 5 cq.toNat tetFlat).all fun r =>
+              decide (r.getLastD 0 ≤ 2147483647 ∧ -2147483648 ≤ r.getLastD 0)
+            if tris.all stored && tets.all stored && nonneg && idok then
+              some (⟨nds, []⟩, ⟨unds, tris⟩, ⟨unds, tets⟩)
+            else none
+          | [] => none
+        | _ => none
+      | none => none
+    | none => none
+  | [] => none
+
+/-- ref_gather_by_extension(grid, "x.meshb"): vertices (ref_gather_node), then per non-empty group its cells
+    (ref_cell_ncell, ref_gather_cell): triangles before tets -/
+def gatherFileOp (ws : List String) : String :=
+  let bad := "bad-op"
+  match ws with
+  | nps :: rbls :: ns :: rest =>
+    match nps.toNat?, rbls.toInt?, ns.toNat? with
+    | some np, some rbl, some N =>
+      if np == 0 || N > 100000 || rbl > 2147483647 || rbl < -2147483648 then bad else
+      match Drivers.Comm.groupsOf np rest with
+      | some gs =>
+        match gs.mapM fileGroup with
+        | some ws3 =>
+          match gatherNode P3.add P3.zero rbl N (ws3.map (·.1)) with
+          | .hang => "hang"
+          | .done st written =>
+            if st != Status.ok then st.name else
+            let tris := gatherCell (ws3.map (·.2.1))
+            let tets := gatherCell (ws3.map (·.2.2))
+            Drivers.Comm.join (["ok", toString N] ++ (written.flatMap fun p => [fmtF p.x, fmtF p.y, fmtF p.z])
+              ++ [toString tris.length] ++ (tris.flatMap emit).map toString
+              ++ [toString tets.length] ++ (tets.flatMap emit).map toString)
+        | none => bad
+      | none => bad
+    | _, _, _ => bad
+  | _ => bad
+
 def step (_ : Unit) (line : String) : Unit × String :=
   match words line with
   | [] => ((), "bad-op")
   | "gather_node" :: rest => ((), gatherNodeOp rest)
   | "gather_cell" :: rest => ((), gatherCellOp rest)
+  | "gather_file" :: rest => ((), gatherFileOp rest)
   | op :: rest => ((), guardOp op rest)
 
 def run (_ : List String) : IO UInt32 := do
